@@ -61,7 +61,9 @@ func dscScenarios(tier string) []dscScenario {
 	if tier == "thorough" {
 		sc = append(sc,
 			dscScenario{Name: "stats-vs-worker-two-failures", From: 1, To: 6, Range: 6, Conc: 1, Fail: []uint64{2, 4}, Stats: 2},
-			dscScenario{Name: "stats-vs-workers-and-new-head", From: 1, To: 4, Range: 2, Conc: 2, Fail: []uint64{2}, Stats: 1, Head: 5},
+			// (a scenario with a third thread announcing a new head is not run: the coordinator's own
+			// `select` between a head, a worker result and a statistics request that are ready at the
+			// same time is decided by the Go runtime, so its schedules do not replay)
 			dscScenario{Name: "stats-vs-second-job", From: 1, To: 6, Range: 3, Conc: 1, Fail: []uint64{3}, Stats: 2},
 		)
 	}
@@ -161,8 +163,18 @@ func dscRun(t *testing.T, sc dscScenario, e *vx.Exec, prop string) (err error) {
 					}
 				}
 			}
+			// the head thread may only announce once the coordinator sits in its loop: a head that is
+			// already waiting when the coordinator starts would meet the first statistics request in
+			// one `select`, which the Go runtime decides at random
+			started := make(chan struct{})
 			sch.Go("stats", func() {
 				go coord.run(runCtx, checkpoint{SampleFrom: sc.From, NetworkHead: sc.To})
+				if sc.Head > sc.To {
+					if _, werr := coord.stats(runCtx); werr != nil {
+						fail("harness: warm-up statistics request failed: %v", werr)
+					}
+				}
+				close(started)
 				for i := 0; i < sc.Stats; i++ {
 					st, serr := coord.stats(runCtx)
 					if serr != nil {
@@ -180,6 +192,11 @@ func dscRun(t *testing.T, sc dscScenario, e *vx.Exec, prop string) (err error) {
 			})
 			if sc.Head > sc.To {
 				sch.Go("head", func() {
+					select {
+					case <-started:
+					case <-runCtx.Done():
+						return
+					}
 					coord.listen(runCtx, vHeader(sc.Head))
 				})
 			}
